@@ -4,11 +4,12 @@
 (* packages) and whether it is benign (the safe extractor accepts it).        *)
 EXTENDS MC_Extract, Json, IOUtils, SequencesExt
 Pkgs == UNION { [1..n -> Entries] : n \in 1..MaxEntries }
-Case(p) == [entries |-> p,
+\* flat: the same paths stored with "/" as the only directory name and the whole path as base name
+Case(p, flat) == [entries |-> p, flat |-> flat,
             naive_escapes |-> ~Contained(Fs0, Run("naive", Fs0, p).fs),
             benign |-> Run("safe", Fs0, p).ok]
 VARIABLE done
 GInit == done = FALSE /\ fs = Fs0 /\ todo = <<>> /\ ok = TRUE
-GNext == ~done /\ done' = TRUE /\ UNCHANGED <<fs, todo, ok>> /\ ndJsonSerialize(IOEnv.OUT, SetToSeq({Case(p) : p \in Pkgs}))
+GNext == ~done /\ done' = TRUE /\ UNCHANGED <<fs, todo, ok>> /\ ndJsonSerialize(IOEnv.OUT, SetToSeq({Case(p, FALSE) : p \in Pkgs} \cup {Case(p, TRUE) : p \in {q \in Pkgs : \E i \in 1..Len(q) : Len(q[i].comps) > 1}}))
 GSpec == GInit /\ [][GNext]_<<done, fs, todo, ok>>
 =============================================================================
